@@ -224,6 +224,26 @@ impl<'a, 'ast> Visit<'ast> for BodyVisitor<'a> {
 
 // ---------------------------------------------------------------- items
 
+fn gparams_json(g: &syn::Generics) -> String {
+    let ps: Vec<String> = g
+        .params
+        .iter()
+        .map(|p| {
+            let name = match p {
+                syn::GenericParam::Type(t) => t.ident.to_string(),
+                syn::GenericParam::Lifetime(l) => format!("'{}", l.lifetime.ident),
+                syn::GenericParam::Const(c) => c.ident.to_string(),
+            };
+            format!("{{\"name\":{},\"span\":{}}}", jstr(&name), span_json(p.span()))
+        })
+        .collect();
+    let (lt, gt) = match (&g.lt_token, &g.gt_token) {
+        (Some(l), Some(r)) => (br(l.span()).0 as i64, br(r.span()).1 as i64),
+        _ => (-1, -1),
+    };
+    format!("{{\"lt\":{},\"gt\":{},\"params\":[{}]}}", lt, gt, ps.join(","))
+}
+
 fn attrs_json(attrs: &[syn::Attribute]) -> String {
     let v: Vec<String> = attrs.iter().map(|a| span_json(a.span())).collect();
     format!("[{}]", v.join(","))
@@ -284,7 +304,7 @@ fn fn_json(
     };
     let (s, e) = br(whole);
     format!(
-        "{{\"kind\":\"fn\",\"name\":{},\"start\":{},\"end\":{},\"attrs\":{},\"vis\":{},\"sig\":{},\"ret\":{},\"generics\":{},\"where\":{},\"params\":[{}],\"body_open\":{},\"body_close\":{},\"loops\":[{}],\"let_loops\":[{}],\"ref_pats\":[{}],\"closures\":{},\"idents\":[{}]}}",
+        "{{\"kind\":\"fn\",\"name\":{},\"start\":{},\"end\":{},\"attrs\":{},\"vis\":{},\"sig\":{},\"ret\":{},\"generics\":{},\"gparams\":{},\"where\":{},\"params\":[{}],\"body_open\":{},\"body_close\":{},\"loops\":[{}],\"let_loops\":[{}],\"ref_pats\":[{}],\"closures\":{},\"idents\":[{}]}}",
         jstr(&sig.ident.to_string()),
         s,
         e,
@@ -293,6 +313,7 @@ fn fn_json(
         span_json(sig.span()),
         ret,
         generics,
+        gparams_json(&sig.generics),
         wh,
         params.join(","),
         body_open,
@@ -394,7 +415,7 @@ fn find_in_items(items: &[syn::Item], segs: &[&str], mono: &[String]) -> Result<
         for it in items {
             if let syn::Item::Struct(s) = it {
                 if s.ident == n {
-                    let extra = format!(",\"fields\":{}", fields_json(&s.fields));
+                    let extra = format!(",\"fields\":{},\"gparams\":{}", fields_json(&s.fields), gparams_json(&s.generics));
                     matches.push(generic_item_json("struct", &n, s.span(), &s.attrs, &s.vis, extra, mono, s.to_token_stream()));
                 }
             }
@@ -403,7 +424,8 @@ fn find_in_items(items: &[syn::Item], segs: &[&str], mono: &[String]) -> Result<
         for it in items {
             if let syn::Item::Enum(s) = it {
                 if s.ident == n {
-                    matches.push(generic_item_json("enum", &n, s.span(), &s.attrs, &s.vis, variants_attrs(s), mono, s.to_token_stream()));
+                    let extra = format!("{},\"gparams\":{}", variants_attrs(s), gparams_json(&s.generics));
+                    matches.push(generic_item_json("enum", &n, s.span(), &s.attrs, &s.vis, extra, mono, s.to_token_stream()));
                 }
             }
         }
